@@ -4,7 +4,7 @@ back; model, Spec and every comparison live in coq/Check/C19_Check.v."""
 import os
 import sys
 
-from common import cN, clist, cbool
+from common import cN, cZ, clist, cbool
 
 sys.path.insert(0, os.path.join(os.path.dirname(os.path.abspath(__file__)), "translators"))
 import c19_breaks  # noqa: E402
@@ -395,10 +395,12 @@ def _b(t):
 
 
 # non-empty (nested) containers, the usual JSON Lines record; keys/strings over the check's alphabet
-J_CONT = [_b(t) for t in ['{"a": 1}', '{"a":1,"b":[1,2,"x y"],"n":null}', '[1, 2]', '[[], {}]', '{"\u00e9": "\u20ac"}',
+# numbers: negative integers, -0 (an int), floats in their canonical spelling (= Python's repr)
+J_NUM = [_b(t) for t in ['-1', '-0', '0.5', '-0.0', '12.25', '0.0', '-300', '1.0', '0.0001', '99999.75']]
+J_CONT = [_b(t) for t in ['[1.5, -2, {"a": -0.5}]', '{"n": -1, "f": 0.0}', '{"a": 1}', '{"a":1,"b":[1,2,"x y"],"n":null}', '[1, 2]', '[[], {}]', '{"\u00e9": "\u20ac"}',
                            '[true,false,null]', '{ "x" : { "n" : [ 0 ] } }', '{"s": "", "l": [], "t": true}', '[""]',
                            '{"b":{"b":{"b":[[[12]]]}}}', '[\t1 ,\t"a" ]']]
-J_BAD = [_b(t) for t in ['[1,]', '[1 2]', '{"a" 1}', '{"a":}', '[1,2', '{"a":1}}', '{1:2}', '[,1]', '{"a":1,}', '[01]',
+J_BAD = [_b(t) for t in ['1.', '.5', '-', '--1', '1-1', '-01', '1.5.2', '- 1', '[1.]', '[-]', '007', '[1,]', '[1 2]', '{"a" 1}', '{"a":}', '[1,2', '{"a":1}}', '{1:2}', '[,1]', '{"a":1,}', '[01]',
                           '{"a":1 "b":2}', '[1]]', '{"a"}', '[nul]', '["a]', '{"a":[1,}']] + [[110, 117, 108], [110, 117, 108, 108, 120], [116, 114, 117], [102, 97, 108, 115], [91], [123], [93], [125],
          [91, 93, 93], [123, 125, 49], [110, 117, 108, 108, 32, 49], [110], [120], [49, 50, 120], [48, 49], [34, 97, 98], [49, 32, 50], [0xc3, 0xa9], [34, 97, 34, 98, 34], [35],
          [34, 97, 9, 98, 34], [49, 11], [34], [44], [49, 0xc2, 0xa0]]
@@ -440,7 +442,8 @@ def gen_jsonl(rng, tier):
                     tok = [0x80]                      # a C1 control character: "Expecting value"
             else:
                 y = rng.random()
-                tok = rng.choice(J_KINDS) if y < 0.35 else rng.choice(J_CONT) if y < 0.6 else rng.choice(J_OK)
+                tok = (rng.choice(J_KINDS) if y < 0.3 else rng.choice(J_CONT) if y < 0.55 else rng.choice(J_NUM) if y < 0.7
+                       else rng.choice(J_OK))
             body = lead + tok + rng.choice(WS_TRAIL)
         last = i == nlines - 1
         if last and rng.random() < 0.4:
@@ -589,8 +592,10 @@ def _jobj(o):
         return {"n": 0}
     if type(o) is bool:
         return {"b": o}
-    if type(o) is int and o >= 0:
+    if type(o) is int:
         return {"i": o}
+    if type(o) is float and o == o and o not in (float("inf"), float("-inf")):
+        return {"f": [ord(c) for c in repr(o)]}
     if type(o) is str:
         return {"s": [ord(c) for c in o]}
     if type(o) in (list, dict):
@@ -743,7 +748,9 @@ def _jval(x):
     if "b" in x:
         return "(JObsBool %s)" % cbool(x["b"])
     if "i" in x:
-        return "(JObsInt %s)" % cN(x["i"])
+        return "(JObsInt %s)" % cZ(x["i"])
+    if "f" in x:
+        return "(JObsFloat %s)" % crtext(x["f"])
     if "s" in x:
         return "(JObsStr %s)" % crtext(x["s"])
     return "(JObsCont %s)" % crtext(x["c"])
